@@ -48,6 +48,24 @@ def cases(tier, seed):
     for items, sets, k, mn, mx in ((6, 4, 2, 1, 2), (8, 6, 3, 2, 6), (20, 10, 4, 3, 3)):
         for r in range(reps * 2):
             out.append(dict(cfg=dict(env="mcp", n=sets, items=items, k=k, min_size=mn, max_size=mx), B=16, s=rnd.randrange(10**6)))
+    # documented alternative location distributions (all promise coordinates inside the unit square) and MTVRP speeds
+    dists = [dict(loc_distribution="cluster", n_cluster=3), dict(loc_distribution="mixed", n_cluster_mix=1), dict(loc_distribution="mix_distribution", n_cluster=3, n_cluster_mix=1),
+             dict(loc_distribution="gaussian_mixture", num_modes=3, cdist=10), dict(loc_distribution="mix_multi_distributions")]
+    for gp in dists:
+        for env_ in ("tsp", "cvrp"):
+            for r in range(reps * 2):
+                out.append(dict(cfg=dict(env=env_, n=rnd.choice([20, 50]), dist=gp["loc_distribution"]), gp=gp, B=64 if q else 256, s=rnd.randrange(10**6)))
+    for sp in (0.5, 1.5, 2.0):
+        for preset in ("vrptw", "vrpltw", "ovrpbltw", "all"):
+            for r in range(reps):
+                out.append(dict(cfg=dict(env="mtvrp", n=rnd.choice([5, 10, 20]), preset=preset, speed=sp), gp=dict(variant_preset=preset, speed=sp, max_time=4.6 if sp >= 1 else 10.0), B=16, s=rnd.randrange(10**6)))
+    # tiny batches: shape shortcuts and "max over the batch" slips only show when the batch is 1-2 instances
+    small = [c for c in envzoo.routing_configs((6,)) if c["env"] != "mtvrp" or c["preset"] in ("all", "vrpbltw", "ovrp")]
+    small += envzoo.sched_configs("quick") + [c for c in envzoo.select_configs("quick") if c["env"] in ("flp", "mcp")]
+    for cfg in small:
+        for B in (1, 2):
+            for r in range(reps * 2):
+                out.append(dict(cfg=cfg, B=B, s=rnd.randrange(10**6)))
     return out
 
 
